@@ -5,6 +5,7 @@ bounded-progress monitor watches the User-Agent continuation loop."""
 
 from __future__ import annotations
 
+import io
 import struct
 
 from vf import core, steps
@@ -27,7 +28,7 @@ ASSUMPTIONS = [
     "pretty views are not judged for a block in which a pretty-printer rejects a generated out-of-domain value",
     "setting types above 3 are outside the quantifier",
 ]
-REQUIRED_MONITORS = ["tuple.model", "views.agree", "values.exact", "pretty.vs.raw", "useragent.continuation"]
+REQUIRED_MONITORS = ["tuple.model", "views.agree", "values.exact", "pretty.vs.raw", "useragent.continuation", "fileobject.position", "views.options"]
 
 KNOWN = sorted(tables.SETTING_NAMES)
 LENGTHS = [0, 1, 2, 3, 4, 5, 2, 4, 16, 127, 128, 129, 255, 256, 4090]
@@ -232,6 +233,44 @@ def check_case(case, ctx):
     if cfg.raw_settings is not by_name or dict(cfg.settings_map("name")) != dict(by_name):
         ctx.violation("views.agree", "repeated access gives a different raw view", case)
         return
+
+    # ---- the same block read from a caller-opened file object that is positioned at the block, not at offset 0 --------
+    ctx.mon("fileobject.position")
+    for prefix in (b"", tlv.ptr(7, b"AAAA") * (1 + len(block) % 3)):
+        fobj = io.BytesIO(prefix + block)
+        fobj.seek(len(prefix))
+        try:
+            from_file = [(x.index.value, x.type.value, x.length, x.value) for x in beacon.iter_settings(fobj)]
+        except Exception as e:  # noqa: BLE001
+            ctx.violation("fileobject.position", f"iter_settings(file object at {len(prefix)}) raised {type(e).__name__}: {e}", case)
+            return
+        if from_file != ref:
+            ctx.violation("fileobject.position", f"iter_settings(file object positioned at {len(prefix)}) decodes {core.short(from_file[:3])}, "
+                          f"the same bytes as a byte string {core.short(ref[:3])}", case)
+            return
+
+    # ---- every option combination of settings_map ------------------------------------------------------
+    ctx.mon("views.options")
+    for it, base in (("name", by_name), ("const", by_const), ("enum", by_enum)):
+        for pretty in (False, True):
+            for parse in (False, True):
+                try:
+                    m = cfg.settings_map(it, pretty=pretty, parse=parse)
+                except Exception:  # noqa: BLE001  out-of-domain value for a pretty-printer: not judged
+                    if pretty:
+                        continue
+                    ctx.violation("views.exception", f"settings_map({it!r}, pretty={pretty}, parse={parse}) raised", case)
+                    return
+                if list(m.keys()) != list(base.keys()):
+                    ctx.violation("views.options", f"settings_map({it!r}, pretty={pretty}, parse={parse}) lists other settings / order", case)
+                    return
+                for (idx, (_, typ, rawval)), mv, bv in zip(exp.items(), m.values(), base.values()):
+                    if pretty and idx in {k.value for k in beacon.SETTING_TO_PRETTYFUNC}:
+                        continue
+                    want = bv if (parse or pretty) else rawval
+                    if isinstance(mv, bytes) != isinstance(want, bytes) or mv != want:
+                        ctx.violation("views.options", f"settings_map({it!r}, pretty={pretty}, parse={parse}) index {idx}: {mv!r}, the raw view has {want!r}", case)
+                        return
 
     # ---- pretty views ------------------------------------------------------------------------------
     pretty_idx = {k.value for k in beacon.SETTING_TO_PRETTYFUNC}
